@@ -148,6 +148,13 @@ def check_io(case, ev):
     if exc is not None:
         return core.exc_finding(exc, case, "ctor/")
     line = "%s %s" % (G.v4_canon(x4), ipaddress.IPv6Address(x6))
+    if case.get("pre"):
+        # an earlier anonymizer in the same process with the same salt and host-bit counts but OTHER
+        # preserved prefixes / networks handles the same text first
+        pa, exc = guarded(G.file_anonymizer, dict(cfg, prefixes=case["pre"]["prefixes"], networks=case["pre"]["networks"]))
+        if exc is not None:
+            return core.exc_finding(exc, case, "ctor/")
+        guarded(core.run_io, pa, line + "\n")
     if case.get("cli") and cfg["salt"] and not cfg["salt"].startswith("-") and cfg["prefixes"] != [] and "\x00" not in cfg["salt"]:
         # through the command line, which has one host-bit option for both families
         import os
@@ -181,13 +188,37 @@ def check_io(case, ev):
         return Finding("hostbits/changed:v4:via-io", "cfg=%r: %r -> %r" % (cfg, line, out), case)
     if (x6 ^ y6) & ((1 << cfg["B6"]) - 1):
         return Finding("hostbits/changed:v6:via-io", "cfg=%r: %r -> %r (low %d bits must be kept)" % (cfg, line, out, cfg["B6"]), case)
+    if not G.is_mask(x4) and not any(G.in_net(x4, c) for c in cfg.get("networks") or []):
+        ref4 = G.mk4(cfg).anonymize(x4)
+        if y4 != ref4:
+            return Finding("io/v4-image-differs-from-stand-alone-anonymizer", "cfg=%r%s: %r -> %r, IpAnonymizer alone gives %s" % (cfg, " (after an anonymizer with prefixes %r / networks %r)" % (case["pre"]["prefixes"], case["pre"]["networks"]) if case.get("pre") else "", line, out, G.v4_canon(ref4)), case)
     ref6 = G.mk6(cfg).anonymize(x6)
     if y6 != ref6:
         return Finding("io/v6-image-differs-from-stand-alone-anonymizer", "cfg=%r: %r -> %r, IpV6Anonymizer alone gives %s" % (cfg, line, out, ipaddress.IPv6Address(ref6)), case)
     return None
 
 
-REPLAY = {"io": check_io, "addr": check_addr, "edges": check_edges, "bulk": check_bulk}
+def check_mixedlist(case, ev):
+    """A preserved-prefix list in which an IPv6 prefix stands between the IPv4 ones (the lists are documented
+    as "IP prefixes" and such an entry is accepted): every IPv4 prefix of the list, and every preserved
+    network, is still honoured.  case: {salt, B, prefixes: [...], networks: [...]|None, probes: {prefix: [int]}}"""
+    from netconan.ip_anonymization import IpAnonymizer
+
+    an, exc = guarded(lambda: IpAnonymizer(case["salt"], list(case["prefixes"]), None if case["networks"] is None else list(case["networks"]), preserve_suffix=case["B"]))
+    if exc is not None:
+        return core.exc_finding(exc, case, "ctor/")
+    ev.case(case, True, ["ipv6-entry-in-the-list", "position%d" % min(next((i for i, p in enumerate(case["prefixes"]) if ":" in p), 9), 3)])
+    for p, xs in case["probes"].items():
+        for x in xs:
+            y, exc = guarded(an.anonymize, x)
+            if exc is not None:
+                return core.exc_finding(exc, case, "anonymize/")
+            if not G.in_net(y, p):
+                return Finding("prefix/left:list-with-an-ipv6-entry", "prefixes=%r networks=%r: %s (in %s) -> %s" % (case["prefixes"], case["networks"], G.v4_canon(x), p, G.v4_canon(y)), case)
+    return None
+
+
+REPLAY = {"mixedlist": check_mixedlist, "io": check_io, "addr": check_addr, "edges": check_edges, "bulk": check_bulk}
 
 
 @st.composite
@@ -213,6 +244,26 @@ def _bulk_case(draw, n):
     return {"cfg": cfg, "n": n, "start": draw(G.u32), "stride": draw(st.integers(1 << 18, G.M32)), "probes": [draw(G.addr_near(pf)) for _ in range(40)]}
 
 
+@st.composite
+def _mixed_case(draw):
+    v4 = draw(G.cidr_list(min_size=1, max_size=4, lengths=st.integers(1, 30)))
+    nets = draw(st.one_of(st.none(), G.cidr_list(min_size=1, max_size=2, lengths=st.integers(8, 30))))
+    k = draw(st.integers(0, len(v4)))
+    prefixes = v4[:k] + [draw(st.sampled_from(["2001:db8::/32", "fe80::/10", "::/0", "2001:db8:1::/48"]))] + v4[k:]
+    if nets is not None and draw(st.booleans()):
+        j = draw(st.integers(0, len(nets)))
+        nets = nets[:j] + ["2001:db8:ffff::/48"] + nets[j:]
+    probes = {}
+    for p in v4 + [n for n in (nets or []) if ":" not in n]:
+        v, l = G.parse_cidr(p)
+        probes[p] = [v | (draw(G.u32) & ((1 << (32 - l)) - 1)) for _ in range(3)]
+    return {"salt": draw(G.salts), "B": draw(st.sampled_from([0, 0, 8, 4])), "prefixes": prefixes, "networks": nets, "probes": probes}
+
+
+def t_mixedlist(shard, nshards, seed, ev, known, n=300):
+    return core.hyp_drive(_mixed_case(), check_mixedlist, n, seed, ev, known, check_name="mixedlist")
+
+
 def t_bulk(shard, nshards, seed, ev, known, n=1, size=24000):
     # the first examples Hypothesis generates are the simplest ones (empty lists, zero values): skip them
     cases = core.collect_cases(_bulk_case(size), n + 3, seed)[3:]
@@ -225,7 +276,7 @@ def _io_case(draw):
     x4 = draw(G.u32)
     while G.is_mask(x4):
         x4 = (x4 * 7 + 12345) & G.M32
-    return {"cfg": cfg, "x4": x4, "x6": draw(G.v6_int), "nonl": draw(st.integers(0, 3)) == 0, "cli": draw(st.integers(0, 2)) == 0}
+    return {"cfg": cfg, "x4": x4, "x6": draw(G.v6_int), "nonl": draw(st.integers(0, 3)) == 0, "cli": draw(st.integers(0, 2)) == 0, "pre": {"prefixes": draw(G.cidr_list(max_size=3)), "networks": draw(st.one_of(st.none(), G.cidr_list(max_size=2, lengths=st.integers(8, 32))))} if draw(st.integers(0, 2)) == 0 else None}
 
 
 def check_io_long(case, ev):
@@ -304,6 +355,7 @@ def plan(tier):
         Task("addr", t_addr, shards=4 if q else 16, n=2000 if q else 50000),
         Task("io", t_io, shards=2 if q else 8, n=400 if q else 10000),
         Task("io_long", t_io_long, shards=2 if q else 6, n=6000 if q else 20000),
+        Task("mixedlist", t_mixedlist, shards=1 if q else 8, n=300 if q else 6000),
         Task("edges", t_edges, shards=2 if q else 8, nsalts=40 if q else 400),
         Task("bulk", t_bulk, shards=3 if q else 8, n=1 if q else 4, size=24000 if q else 60000),
     ]
